@@ -6,6 +6,8 @@ package main
 import (
 	"bytes"
 	"encoding/binary"
+	"encoding/hex"
+	"encoding/json"
 	"fmt"
 	"io"
 	"strings"
@@ -62,15 +64,21 @@ type carrier struct {
 }
 
 var carriers = map[string]carrier{
-	"[]byte":          {"[]byte", false, func(b []byte) any { return b }},
-	"[][]byte":        {"[][]byte", false, func(b []byte) any { return hlib.Split(b) }},
-	"*bytes.Buffer":   {"*bytes.Buffer", false, func(b []byte) any { return bytes.NewBuffer(b) }},
-	"*bytes.Reader":   {"*bytes.Reader", false, func(b []byte) any { return bytes.NewReader(b) }}, // WriterTo, one Write
-	"WriterTo/1":      {"WriterTo/1", false, func(b []byte) any { return &multiWriterTo{[][]byte{b}} }},
-	"WriterTo/2":      {"WriterTo/2", true, func(b []byte) any { return &multiWriterTo{hlib.Split(b)} }},
-	"Reader":          {"Reader", false, func(b []byte) any { return &plainReader{data: b} }}, // one chunk when len <= 1024
-	"Reader/frag":     {"Reader/frag", true, func(b []byte) any { return &plainReader{data: b, frag: (len(b) + 1) / 2} }},
-	"string":          {"string", false, func(b []byte) any { return string(b) }}, // only with the text codec
+	"[]byte":        {"[]byte", false, func(b []byte) any { return b }},
+	"[][]byte":      {"[][]byte", false, func(b []byte) any { return hlib.Split(b) }},
+	"*bytes.Buffer": {"*bytes.Buffer", false, func(b []byte) any { return bytes.NewBuffer(b) }},
+	"*bytes.Reader": {"*bytes.Reader", false, func(b []byte) any { return bytes.NewReader(b) }}, // WriterTo, one Write
+	"WriterTo/1":    {"WriterTo/1", false, func(b []byte) any { return &multiWriterTo{[][]byte{b}} }},
+	"WriterTo/2":    {"WriterTo/2", true, func(b []byte) any { return &multiWriterTo{hlib.Split(b)} }},
+	"Reader":        {"Reader", false, func(b []byte) any { return &plainReader{data: b} }}, // one chunk when len <= 1024
+	"Reader/frag":   {"Reader/frag", true, func(b []byte) any { return &plainReader{data: b, frag: (len(b) + 1) / 2} }},
+	"string":        {"string", false, func(b []byte) any { return string(b) }}, // only with the text codec
+	// only with the json pipeline: b is the JSON document, the message is the decoded object
+	"json-object": {"json-object", false, func(b []byte) any {
+		var o map[string]interface{}
+		json.Unmarshal(b, &o)
+		return o
+	}},
 	"*strings.Reader": {"*strings.Reader", false, func(b []byte) any { return strings.NewReader(string(b)) }},
 }
 
@@ -97,6 +105,14 @@ var pipes = map[string]pipe{
 	"text": {"text", func() []netty.Handler {
 		return []netty.Handler{format.TextCodec()}
 	}, func(b []byte) []byte { return b }},
+	"varint+json": {"varint+json", func() []netty.Handler {
+		return []netty.Handler{frame.VarintLengthFieldCodec(1 << 20), format.JSONCodec(false, false)}
+	}, func(b []byte) []byte {
+		j, _ := json.Marshal(map[string]interface{}{"id": int(b[0]), "v": hex.EncodeToString(b)})
+		var h [binary.MaxVarintLen64]byte
+		n := binary.PutUvarint(h[:], uint64(len(j)))
+		return append(append([]byte{}, h[:n]...), j...)
+	}},
 	"varint": {"varint", func() []netty.Handler {
 		return []netty.Handler{frame.VarintLengthFieldCodec(1 << 20)}
 	}, func(b []byte) []byte {
@@ -186,7 +202,7 @@ func scenario(cfg hlib.ChanCfg, p pipe, plan [][]string, sizes [][]int, bound in
 							body = body[:len(body)-1]
 						case "prepender2":
 							body = body[2:]
-						case "varint":
+						case "varint", "varint+json":
 							_, k := binary.Uvarint(body)
 							body = body[k:]
 						}
@@ -302,6 +318,7 @@ func build(tier string) []*explore.Scenario {
 		{"delimiter+text", [][]string{{"Reader"}, {"string"}}, [][]int{{10}, {10}}},
 		{"prepender2", [][]string{{"[]byte", "*bytes.Buffer"}, {"[][]byte", "*bytes.Reader"}}, [][]int{{10, 1024}, {1025, 10}}},
 		{"varint", [][]string{{"[]byte", "Reader"}, {"*bytes.Buffer"}}, [][]int{{10, 2500}, {1025}}},
+		{"varint+json", [][]string{{"json-object", "json-object"}, {"json-object"}}, [][]int{{10, 600}, {1025}}},
 	}
 	if tier == "thorough" {
 		plans = append(plans,
